@@ -8,8 +8,8 @@
   * `mfi_small`: every stream length `t ≤ 2·10^6` satisfies the smallness hypothesis `t·u ≤ 1/8`;
   * `mfi_tau`: for periods `n ≤ 30` (the default is 14) `B(k,n) ≤ τ(k)` for EVERY `k`, stated
     without square roots as `B(k,n)² ≤ (1e-12)² + (1e-15)²·k³`;
-  * `mfi_bound_exceeds`: for `n = 1000` the WORST-CASE bound is above `τ` at `k = 10^4` — the
-    theorem does not show the property's tolerance for long windows (the bound has the extra
+  * `mfi_bound_exceeds`: for `n = 1000` the WORST-CASE bound is above `τ` at `k = 10^4`: the totals
+    result does not show the property's tolerance for long windows (the bound has the extra
     factor `min(k,n)` because the totals are sums of up to `n` flows, not means); that range stays
     with the sampled oracle.  Stated, not hidden.
 -/
